@@ -259,17 +259,52 @@ def _worker_run(binpath, lines, timeout_s, env=None):
     return results
 
 
+def build_binary():
+    """go build of the goalign CLI from REPO's working tree"""
+    t0 = time.time()
+    out_bin = os.path.join(BUILD, "goalign")
+    rc, out = run(["go", "build", "-o", out_bin, "."], cwd=REPO, env=goenv(), timeout=1200)
+    return rc == 0, out, time.time() - t0, out_bin
+
+
+def run_cli_case(c, timeout_s=20.0):
+    """ops named `cli*`: args[0] = stdin text with `|` for newline, args[1:] = argv of the goalign binary.
+    Result: `rc=<n> out=<stdout, newline as |>` (stderr is not part of the result)."""
+    binp = os.path.join(BUILD, "goalign")
+    stdin = c.args[0].replace("|", "\n")
+    if stdin == "_":
+        stdin = ""
+    try:
+        p = subprocess.run([binp] + c.args[1:], input=stdin.encode(), stdout=subprocess.PIPE,
+                           stderr=subprocess.PIPE, timeout=timeout_s)
+        out = p.stdout.decode("utf-8", "replace").replace("\t", " ").replace("\n", "|")
+        if p.returncode != 0:
+            out = ""      # error text is never compared, only the failing status
+        c.impl = "rc=%d out=%s" % (p.returncode, out)
+    except subprocess.TimeoutExpired:
+        c.impl = "hang"
+
+
 def run_impl(binpath, cases, timeout_s=5.0, nproc=None, env=None):
-    nproc = nproc or min(NCPU, max(1, len(cases) // 50))
     for i, c in enumerate(cases):
         c.id = i
+    cli = [c for c in cases if c.op.startswith("cli")]
+    if cli:
+        with ThreadPoolExecutor(min(NCPU, len(cli))) as ex:
+            list(ex.map(run_cli_case, cli))
+    allcases = cases
+    cases = [c for c in cases if not c.op.startswith("cli")]
+    if not cases:
+        return
+    nproc = nproc or min(NCPU, max(1, len(cases) // 50))
     chunks = [[] for _ in range(nproc)]
     for i, c in enumerate(cases):
         chunks[i % nproc].append((c.id, c.line()))
+    byid = {c.id: c for c in cases}
     with ThreadPoolExecutor(nproc) as ex:
         for res in ex.map(lambda ch: _worker_run(binpath, ch, timeout_s, env), chunks):
             for i, r in res.items():
-                cases[i].impl = r
+                byid[i].impl = r
 
 
 def run_oracle(cases, nproc=None):
@@ -344,6 +379,13 @@ class Result:
 
     def add_obligation(self, name, ok, kind, detail=""):
         self.obligations.append({"name": name, "ok": bool(ok), "kind": kind, "detail": detail})
+
+
+def clear_replays(pid):
+    if os.path.isdir(REPLAY):
+        for fn in os.listdir(REPLAY):
+            if fn.startswith(pid + "-"):
+                os.remove(os.path.join(REPLAY, fn))
 
 
 def write_replay(pid, n, payload):
@@ -450,6 +492,7 @@ def generic_check(mod, tier, seed):
     res = Result(mod.ID, tier, seed)
     known = load_known()
     rng = random.Random(seed * 1000003 + hash_id(mod.ID))
+    clear_replays(mod.ID)
 
     with Lock():
         ok, out, _ = regenerate()
@@ -463,14 +506,24 @@ def generic_check(mod, tier, seed):
             ook, obroken, _, _ = lake_build(["oracle"])
             oracle_ok = ook
         ths = []
+        audit_fail = None
         if bok:
             rc, ths, aout = audit(mod.LEAN_MODULES)
             if rc not in (0, 1) or not ths:
-                res.add_obligation("axiom-audit-ran", False, "audit", aout[-500:])
+                # one retry (a cold first start of the interpreter can be slow)
+                rc, ths, aout = audit(mod.LEAN_MODULES)
+            if rc not in (0, 1) or not ths:
+                audit_fail = "axiom audit did not run (rc=%s): %s" % (rc, aout[-1500:])
+                res.add_obligation("axiom-audit-ran", False, "audit", aout[-1500:])
         toks = forbidden_token_scan()
         res.add_obligation("no-forbidden-tokens(sorry/admit/axiom/native_decide/bv_decide/...)", not toks, "audit", "; ".join(toks))
         hok, hout, _, binpath = build_harness()
         res.add_obligation("harness-builds-against-working-tree", hok, "tie", "" if hok else hout[-800:])
+        if getattr(mod, "NEEDS_BINARY", False):
+            cok, cout, _, _ = build_binary()
+            res.add_obligation("goalign-binary-builds-from-working-tree", cok, "tie", "" if cok else cout[-800:])
+            hok = hok and cok
+            hout = hout + cout
 
     names = {t["name"] for t in ths}
     for t in ths:
@@ -493,6 +546,8 @@ def generic_check(mod, tier, seed):
         broken_names.append("forbidden tokens: " + "; ".join(toks))
     if not gen_ok:
         broken_names.append("T1 regeneration: " + out[-300:])
+    if audit_fail:
+        broken_names.append(audit_fail)
 
     if not hok:
         p = write_replay(mod.ID, "harness-build", {"obligation": "harness-builds-against-working-tree", "output": hout[-3000:]})
@@ -536,7 +591,7 @@ def generic_check(mod, tier, seed):
         if (c.op, c.verdict) in reported:
             continue
         reported.add((c.op, c.verdict))
-        small = shrink_case(mod, binpath, c, lambda x, v=c.verdict: x.verdict == v and
+        small = shrink_case(mod, binpath, c, lambda x, v=c.verdict: (x.verdict == v or (getattr(mod, "SHRINK_ANY_FAIL", False) and (x.verdict or "").startswith("fail"))) and
                             classify_known(mod, x, known) is None)
         n += 1
         p = write_replay(mod.ID, n, {"property": mod.ID, "seed": seed, "case": small.to_json(),
@@ -551,7 +606,7 @@ def generic_check(mod, tier, seed):
                        "" if corr_ok else "%d mismatches, e.g. %s" % (len(mismatching), mismatching[0].to_json()))
     if not failing:
         if mismatching:
-            c = shrink_case(mod, binpath, mismatching[0], lambda x: corr_mismatch(mod, x))
+            c = shrink_case(mod, binpath, mismatching[0], lambda x: not model_matches(mod, x))
             p = write_replay(mod.ID, "correspondence", {
                 "property": mod.ID, "obligation": "T4 correspondence (model = implementation)",
                 "note": "model and implementation disagree; the property predicate held on every explored input",
@@ -581,14 +636,14 @@ def generic_check(mod, tier, seed):
                    "theorems": [{"name": t["name"], "axioms": t["axioms"]} for t in ths]})
 
 
-def corr_mismatch(mod, c):
-    """model != implementation, unless the oracle answered the module's explicit `UNMODELLED` marker
-    (no model for that format yet: no correspondence obligation for this case; the module must list
-    the gap under PARTIAL)"""
-    unm = getattr(mod, "UNMODELLED", None)
-    if unm is not None and c.model == unm:
-        return False
-    return c.model != c.impl
+def model_matches(mod, c):
+    """model = implementation?  A property module may refine this (e.g. compare a history only up to
+    the step where the property is already violated)."""
+    if hasattr(mod, "matches"):
+        return mod.matches(c)
+    if c.model == "panic" and (c.impl or "").startswith("panic"):
+        return True       # the Go panic message is never compared
+    return c.model == c.impl
 
 
 def classify_known(mod, c, known):
@@ -610,11 +665,11 @@ def classify_cases(mod, cases, known, res):
                 cnt = res.known.get(fid, (e["what"], 0))[1] + 1
                 res.known[fid] = (e["what"], cnt)
                 # a known finding must still be modelled faithfully
-                if corr_mismatch(mod, c):
+                if not model_matches(mod, c):
                     mismatching.append(c)
             else:
                 failing.append(c)
-        elif corr_mismatch(mod, c):
+        elif not model_matches(mod, c):
             mismatching.append(c)
     return failing, mismatching
 
@@ -640,6 +695,8 @@ def hash_id(s):
 
 
 def replay(mod, path):
+    if hasattr(mod, "replay"):
+        return mod.replay(path)
     d = json.load(open(path))
     if "case" not in d:
         print(json.dumps(d, indent=1))
